@@ -34,6 +34,7 @@ class Sched:
         self.diverged = None
         self.free = False        # after the schedule is exhausted threads run freely
         self.started = {}        # method name -> count (dynamic thread naming)
+        self.clock = 0           # sum of the timeouts the schedule let expire
 
     def me(self):
         return self.names.get(threading.get_ident(), "?")
@@ -71,7 +72,7 @@ class Sched:
     def _compatible(expected, actual):
         if expected == actual:
             return True
-        return expected == "wait-timeout" and actual == "wait"
+        return expected in ("wait-timeout", "interrupt") and actual == "wait"
 
 
 class RLockR:
@@ -111,7 +112,10 @@ class EventR:
     def wait(self, timeout=None):
         granted = self.s.sync("wait")
         if granted == "wait-timeout":
+            self.s.clock += timeout or 0
             return False            # the schedule says: this wait times out
+        if granted == "interrupt":
+            raise KeyboardInterrupt()   # the schedule says: SIGINT reaches this (main) thread while it waits
         if self.s.free:
             return self.e.wait(timeout)   # after the schedule: a real wait (None = until the harness gives up)
         # the model fires a wait step only when the flag is set
@@ -237,4 +241,5 @@ def run_schedule(programs: dict, order, env_builder, patience=3.0, settle=1.0):
         time.sleep(0.02)
     finished = sorted(done)
     blocked = sorted(n for n, t in threads.items() if t.is_alive())
+    G.clock = sched.clock
     return dict(G._d), done, blocked, sched
